@@ -790,7 +790,9 @@ func (fc *FnCtx) typeAssert(fr *Frame, st *State, reach string, t *ssa.TypeAsser
 // the concrete types the engine has seen; other tags are unconstrained.
 func (fc *FnCtx) implements(x Val, it types.Type) string {
 	iface := it.Underlying().(*types.Interface)
-	r := fc.sc.fresh("impl", "Bool")
+	fname := "impl$" + sanitize(types.TypeString(it, nil))
+	fc.sc.declareFun(fname, []string{"Int"}, "Bool")
+	r := sx(fname, x.Tag)
 	fc.sc.assume(tImp(r, tNot(tEq(x.Tag, "0"))))
 	ids := make([]int, 0, len(fc.tagTypes))
 	for id := range fc.tagTypes {
